@@ -39,6 +39,14 @@ Definition run (args : list bytes) : bytes :=
   else if is_op "port" op then out_res out_bool (is_valid_port (arg_pyval a1 a2))
   else if is_op "icmp_type" op then out_res out_bool (is_valid_icmp_type (arg_pyval a1 a2))
   else if is_op "icmp_code" op then out_res out_bool (is_valid_icmp_code (arg_pyval a1 a2))
+  else if is_op "ipv4_ns_m" op then out_ares (valid_ipv4 false a1)
+  else if is_op "ip_m" op then out_ares (valid_ip a1)
+  else if is_op "cidr_m" op then out_ares (valid_cidr a1)
+  else if is_op "cidr6_m" op then out_ares (valid_ipv6_cidr a1)
+  else if is_op "aton" op then out_ares (inet_aton a1)
+  else if is_op "na_aton" op then out_ares (netaddr_valid_ipv4_aton a1)
+  else if is_op "net" op then out_ares (ipnetwork a1)
+  else if is_op "net6" op then out_ares (ipnetwork6 a1)
   else if is_op "pton4" op then out_ares (inet_pton false a1)
   else if is_op "pton6" op then out_ares (inet_pton true a1)
   else lit "BADOP".
